@@ -28,3 +28,15 @@ Definition exOps : list op :=
     Claim 0 id4 10;
     Adv [ns];
     Claim 3 id3 9 ].
+
+(** the pinned code's creation of an ORDINARY contract: [create] without the recipient <> escrow test
+    (used only by the refuted-on-pinned-code witness of Props/C04.v) *)
+Definition create_pinned (s : state) (m : create_msg) : option state :=
+  let id := id_of m in
+  if negb (create_basic m) || blocked (m_to m) || has id (st_contracts s) then None
+  else match lock_coins s id (m_sender m) (m_amount m) with
+       | Some s1 => Some (add_contract s1 id (mkC (m_sender m) (m_to m) (m_amount m) (m_hl m) (m_ts m)
+                                                   (st_height s + m_lock m) Open 0 false DNone))
+       | None => None
+       end.
+
